@@ -29,7 +29,7 @@ func init() {
 	vlib.Register(&vlib.Prop{
 		ID:    "C06",
 		Level: "fault_enumeration",
-		Cases: func(tier string) int { return forcedCells() + vlib.TierN(tier, 480, 12000) },
+		Cases: func(tier string) int { return forcedCells() + vlib.TierN(tier, 480, 120000) },
 		Rule: "forced part (all 432 cells in both tiers): a message is parked at one of 6 points of its path {inside the subscriber decorator, received but not dispatched, dispatched but not started, inside the handler (gate), before publishing, before settlement} " +
 			"x {1,2,8} concurrent Close callers x subscriber {scripted, scripted that emits one more message from its Close(), scripted that ignores the context, scripted whose Close() waits until every delivered message is settled (like a broker client draining in-flight messages), GoChannel buffer 0, GoChannel buffer 4} x CloseTimeout {1 h, 30 ms with the handler held longer} " +
 			"x {handleClose goroutine parked until Close signalled and Run cancelled the context, not parked}; Close is called while the message is parked, then the park is released, the handler is held at a gate until every Close call returned or the process is quiescent, then the gate opens. " +
